@@ -56,12 +56,21 @@ int engine_inproc_asm(RBuf &rq)
       uint32_t org = rq.u32();
       uint32_t dump_lo = rq.u32();
       uint32_t dump_hi = rq.u32();
-      if (util == NULL || kind == 2)
+      if (util == NULL || kind == 2 || kind == 3)
       {
         delete util;
         util = new UtilContext();
       }
       util->set_cpu_by_name(cpu.c_str());
+      if (kind == 3 && dump_lo <= dump_hi && dump_hi - dump_lo < (1u << 20))
+      {
+        // reference run over a pre-filled image: what the assembly does not write stays 0xff
+        for (uint32_t a = dump_lo; ; a++)
+        {
+          util->memory.write8(a, 0xff);
+          if (a == dump_hi) { break; }
+        }
+      }
       int status = assemble_code(*util, cpu.c_str(), code.c_str(), org);
       g_extra.u8(1);
       g_extra.u32((uint32_t)status);
